@@ -1,7 +1,7 @@
 import SJ.Proofs.FromValue
 import SJ.Model.FromValueRoutes
 import SJ.Proofs.Schema
-import SJ.Proofs.TypedAgree
+import SJ.Proofs.TypedAgreeAll
 import SJ.Proofs.RoundTrip
 import SJ.Props.C03
 /-!
@@ -14,11 +14,10 @@ Proved here, over the whole typed universe (`SJ.Spec.Schema`): the OWNED deseria
 `impl Deserializer for &Value`) — two separate implementations in `src/value/de.rs`, two separate
 transcriptions in `SJ.Model.FromValue` — return the same outcome for every schema, every value and every
 configuration. The third leg, `from_str::<T>(&to_string(&v))`, is stated over the typed text model (`SJ.Model.Typed.deTypedTop`,
-de.rs's typed entry points) and proved for a staged schema fragment (`c16_text_agrees_partial`: bool, the twelve
-integer targets, unit, Option, newtype structs, Vec, fixed-length tuples); for the rest of the universe (strings,
-bytes, maps, structs, enums, floats, IgnoredAny, Value) the three-way statement is carried by the correspondence run
-(`c16` op), where the text leg is now COMPUTED by the model and compared with the crate's, and the executable
-specification compares the three real outcomes on every generated (schema, value) pair.
+de.rs's typed entry points) and proved for the whole schema universe except float targets, over values without floats
+(`c16_text_agrees_partial`); for floats the three-way statement is carried by the correspondence run (`c16` op), where
+the text leg is COMPUTED by the model and compared with the crate's, and the executable specification compares the three
+real outcomes on every generated (schema, value) pair.
 -/
 namespace SJ.Props.C16
 open SJ SJ.Model.FromValue SJ.Proofs.FromValue
@@ -151,19 +150,25 @@ theorem c16_routing_tied : RoutingTied := by
 example : (SJ.Gen.routeOwned.lookup "deserialize_char") = some "->deserialize_string" := by rfl
 example : (SJ.Gen.routeRef.lookup "deserialize_char") = some "->deserialize_str" := by rfl
 
-/-- **C16, the text leg (`_partial`: staged by schema fragment).** For every schema built from bool, the twelve integer
-    targets (8–128 bit), unit / unit structs, `Option`, newtype structs, `Vec` and fixed-length tuples, and every value
-    without floats that a non-`arbitrary_precision` `Value` can hold, within the parser's depth budget: `to_string(v)`
-    succeeds and `from_str::<T>` of that text (typed deserializer + `end()`, any source) returns exactly what
-    `from_value::<T>(v)` returns, and fails whenever it fails — matching and mismatching values alike (wrong kinds,
-    out-of-range integers, arrays too short or too long, `null` for `Option`). Together with `c16_owned_borrowed` this
-    is the three-way statement on the fragment. Missing (named): strings / char / bytes and every map, struct and enum
-    target (they need the string sub-machine's round trip `parse(escape s) = s` over `runPfx`), float targets and float
-    values (need `ryu`'s shape beyond `ExtOK`), `IgnoredAny` and `Value` targets (need C01-completeness over `runPfx`),
-    `arbitrary_precision` (literal-backed numbers). The text is the one the serializer model writes (`c03_value`). -/
-theorem c16_text_agrees_partial (mcfg : Model.Machine.Cfg) (_hap : mcfg.ap = false) (src : Model.Machine.Src)
-    (ext : Spec.Program.Ext) (hext : Spec.Program.ExtOK ext) (ext' : Ext) (s : Schema) (hs : Proofs.Typed.agreeFrag s = true)
-    (v : JV) (hv : Spec.WF.shapeOK {} v = true ∧ Spec.WF.noFloat v = true)
+/-- **C16, the text leg (`_partial`: everything but floats).** For every schema of the fragment `agreeFrag2` — bool, the twelve
+    integer targets (8–128 bit), char, `String`, byte buffers, unit / unit structs, `Option`, newtype structs, `Vec`, fixed-length
+    tuples, maps with EVERY key kind (string, the twelve integer widths, bool, char, unit-variant enums; arbitrary key
+    strings, accepted or not), structs (with and without `deny_unknown_fields`; from arrays and from objects, unknown / duplicate /
+    missing fields as derive's visitor treats them), enums (unit, newtype, non-empty tuple and struct variants), `IgnoredAny`
+    and `Value` (at any nesting depth: the machine on the padding frames of the typed containers) — and every value without
+    floats that a non-`arbitrary_precision` `Value` of this build can hold (`shapeOK`), within the parser's depth budget and
+    outside the statement's exclusion "a struct variant written as an array" (`hasArrayPayload`; the exclusion "zero-length
+    tuple variant" is part of the fragment): `to_string(v)` succeeds and `from_str::<T>` of that text (typed deserializer +
+    `end()`, any source) returns exactly what `from_value::<T>(v)` returns, and fails whenever it fails — matching and
+    mismatching values alike. Together with `c16_owned_borrowed` this is the three-way statement on the fragment.
+    Missing (named): `f64` targets and float values (the link between the typed number scanner and `ryu`'s text under
+    `FloatsRoundTrip`; a float under a 128-bit integer target is read as its integer prefix and rejected only by the
+    caller, so the per-target invariant of the proof does not hold there), `f32` (outside the claim), `arbitrary_precision`
+    (literal-backed numbers). The text is the one the serializer model writes (`c03_value`). -/
+theorem c16_text_agrees_partial (mcfg : Model.Machine.Cfg) (hap : mcfg.ap = false) (src : Model.Machine.Src)
+    (ext : Spec.Program.Ext) (hext : Spec.Program.ExtOK ext) (ext' : Ext) (s : Schema) (hs : Proofs.Typed.agreeFrag2 s = true)
+    (v : JV) (hv : Spec.WF.shapeOK (Proofs.CanonM.specCfg mcfg) v = true ∧ Spec.WF.noFloat v = true)
+    (hx : v.hasArrayPayload s.structVariantNames = false)
     (hd : mcfg.limitOff = true ∨ Spec.WF.depthJV v ≤ 127) :
     ∃ bufs, Model.Ser.serCompact ext (Model.Ser.ofValue v) = .ok bufs ∧
       (match fromValue { po := mcfg.po, fr := mcfg.fr, ap := false } ext' s v with
@@ -173,11 +178,12 @@ theorem c16_text_agrees_partial (mcfg : Model.Machine.Cfg) (_hap : mcfg.ap = fal
   obtain ⟨⟨bufs, hser, htext⟩, _⟩ := SJ.Props.C03.c03_value ext hext v hl
   refine ⟨bufs, hser, ?_⟩
   rw [htext]
-  have hag := Proofs.Typed.agree_deTyped ext hext (env := { cfg := mcfg, src := src }) rfl
-    { po := mcfg.po, fr := mcfg.fr, ap := false } rfl ext' (Model.Typed.Schema.size s + 1) s (by omega) hs 0 v hv
+  have hag := Proofs.Typed.agree_all ext hext (env := { cfg := mcfg, src := src }) rfl
+    { po := mcfg.po, fr := mcfg.fr, ap := false } rfl ext' s.structVariantNames (Model.Typed.Schema.size s + 1) s (by omega) hs
+    (fun _ h => h) 0 v ⟨Proofs.Typed.shapeW_of_shapeOK _ hap v hv.1, hv.2⟩
     (by rcases hd with h | h
         · exact .inl h
-        · exact .inr (by omega)) [] 0 (.inl rfl)
+        · exact .inr (by omega)) hx hv.1 [] 0 (.inl rfl)
   simp only [List.append_nil] at hag
   unfold Proofs.Typed.T at hag
   unfold Model.Typed.deTypedTop
@@ -206,5 +212,33 @@ example : (match Model.Typed.deTypedTop {} (.seq (.tuple [.int .u8, .option .boo
 example : fromValue {} {} (.seq (.int .u8)) (.arr [.num (.pos 256)]) = .error () := by rfl
 example : (match Model.Typed.deTypedTop {} (.seq (.int .u8)) [0x5b, 0x32, 0x35, 0x36, 0x5d] with | .data (some 4) => true | _ => false) = true := by
   decide +kernel
+
+-- `{"z":[],"a":7}` as `struct { a: u8, b: Option<String> }`: the unknown field is skipped (`ignore_value`), the missing `Option` is `None`
+example : (match Model.Typed.deTypedTop {} (.struct_ [([0x61], .int .u8), ([0x62], .option .string)] false)
+      [0x7b, 0x22, 0x7a, 0x22, 0x3a, 0x5b, 0x5d, 0x2c, 0x22, 0x61, 0x22, 0x3a, 0x37, 0x7d] with
+    | .ok t => t == .struct_ [.int 7, .none] | _ => false) = true := by decide +kernel
+-- `{"V":[1,"x\n"]}` as an enum with a tuple variant `V(u8, String)`; `{"é":true}` as `Map<char, bool>`
+example : (match Model.Typed.deTypedTop {} (.enum_ [([0x55], .unit), ([0x56], .tuple [.int .u8, .string])])
+      [0x7b, 0x22, 0x56, 0x22, 0x3a, 0x5b, 0x31, 0x2c, 0x22, 0x78, 0x5c, 0x6e, 0x22, 0x5d, 0x7d] with
+    | .ok t => t == .variant 1 (.seq [.int 1, .str [0x78, 0x0a]]) | _ => false) = true := by decide +kernel
+example : fromValue {} {} (.enum_ [([0x55], .unit), ([0x56], .tuple [.int .u8, .string])])
+    (.obj [([0x56], .arr [.num (.pos 1), .str [0x78, 0x0a]])]) = .ok (.variant 1 (.seq [.int 1, .str [0x78, 0x0a]])) := by rfl
+example : (match Model.Typed.deTypedTop {} (.map .char .bool) [0x7b, 0x22, 0xc3, 0xa9, 0x22, 0x3a, 0x74, 0x72, 0x75, 0x65, 0x7d] with
+    | .ok t => t == .map [(.char 0xe9, .bool true)] | _ => false) = true := by decide +kernel
+-- `{"-7":[null,{"k":1}]}` as `Map<i128, Vec<Value>>`: an integer key through `MapKey`'s 128-bit method, nested `Value`s on padding frames
+example : (match Model.Typed.deTypedTop {} (.map (.int .i128) (.seq .any))
+      [0x7b, 0x22, 0x2d, 0x37, 0x22, 0x3a, 0x5b, 0x6e, 0x75, 0x6c, 0x6c, 0x2c, 0x7b, 0x22, 0x6b, 0x22, 0x3a, 0x31, 0x7d, 0x5d, 0x7d] with
+    | .ok t => t == .map [(.int (-7), .seq [.any .null, .any (.obj [([0x6b], .num (.pos 1))])])] | _ => false) = true := by decide +kernel
+example : fromValue {} {} (.map (.int .i128) (.seq .any)) (.obj [([0x2d, 0x37], .arr [.null, .obj [([0x6b], .num (.pos 1))]])])
+    = .ok (.map [(.int (-7), .seq [.any .null, .any (.obj [([0x6b], .num (.pos 1))])])]) := by rfl
+-- a key that is not the spelling of an integer (`01`) is refused on both sides
+example : fromValue {} {} (.map (.int .u8) .bool) (.obj [([0x30, 0x31], .bool true)]) = .error () := by rfl
+example : (match Model.Typed.deTypedTop {} (.map (.int .u8) .bool) [0x7b, 0x22, 0x30, 0x31, 0x22, 0x3a, 0x74, 0x72, 0x75, 0x65, 0x7d] with
+    | .ok _ => false | _ => true) = true := by decide +kernel
+-- the fragment predicate on these schemas, and the exclusion it embodies
+example : Proofs.Typed.agreeFrag2 (.enum_ [([0x55], .unit), ([0x56], .tuple [.int .u8, .string])]) = true ∧
+    Proofs.Typed.agreeFrag2 (.enum_ [([0x5a], .tuple [])]) = false ∧
+    Proofs.Typed.agreeFrag2 (.struct_ [([0x61], .int .u8), ([0x62], .option .string)] true) = true ∧
+    Proofs.Typed.agreeFrag2 (.map (.int .i128) (.seq .any)) = true ∧ Proofs.Typed.agreeFrag2 (.seq .f64) = false := by decide
 
 end SJ.Props.C16
